@@ -78,6 +78,7 @@ func resPMT(p psi.PMT, err error) Val {
 	}
 	// what the decoded PMT hands out is kept until the op replies, and its getters are asked twice (stable.go)
 	keepPMT("decoded PMT", p)
+	keepView("the getters of the decoded PMT", func() string { return valTextFull(vpmt(p)) }) // must survive the decoy phase
 	return VOk(twice("PMT getters", func() Val { return vpmt(p) }))
 }
 
